@@ -462,3 +462,4 @@ fn c08_release_two() {
     kani::cover!(tail0 == u16::MAX);
     std::mem::forget(rig.pool);
 }
+
